@@ -299,8 +299,9 @@ var props = []propCfg{
 		Tests: []testCfg{
 			{Name: "TestDeclarations", Rapid: true, Quick: 160, Thorough: 3200, ShardsQ: 16, ShardsT: 16},
 			{Name: "TestForeignCalls", Rapid: true, Quick: 160, Thorough: 3200, ShardsQ: 16, ShardsT: 16},
+			{Name: "TestRecursiveDeclarations", Rapid: true, Quick: 160, Thorough: 3200, ShardsQ: 16, ShardsT: 16},
 		},
-		Rule:      "(i) declarations: 2..5 random record / union declarations (generic or not, upper- and lower-case type and field names, field and payload types over int/string/bool/slices/2- and 3-tuples/earlier records and unions/type parameters), and per used type a Folang function with a unit parameter that builds a value, a top-level variable, a function showing a value, a function with unit result, an identity function, plus functions with 2..4 parameters; together with a GENERATED GO CLIENT in the same package that uses them only through the documented names: struct literals R{F: v} / R[int]{...} and field reads, New_U_C(v), the New_U_C variable, New_U_C[T](v) / New_U_C[T]() for generic unions, a type switch over U_C reading .Value, frt.Tuple2/3 literals with E0..E2, calls f(a, b) in parameter order, no parameter for (), no result for unit, package variables. (ii) foreign calls: random package_info blocks for package _ (implemented in the client file) and for a named sibling Go package, with 1..4-ary signatures over int/string/bool/[]int/opaque types/type parameters and generated Go implementations that print their arguments in order and return a value computed from them; Folang call sites in every arity from 1 to full: direct, through a let-bound partial application, as a pipe stage, as a higher-order argument, with explicit type arguments. Oracle: the whole package (gen_decl.go + client.go [+ sibling package]) compiles and its stdout equals what the documented representation and the foreign functions' own printing predict. Non-trivial = a generic declaration used from Go, or a foreign function of arity >= 3 applied partially; distinct = hash of the case.",
+		Rule:      "(i) declarations: 2..5 random record / union declarations (generic or not, upper- and lower-case type and field names, field and payload types over int/string/bool/slices/2- and 3-tuples/earlier records and unions/type parameters), and per used type a Folang function with a unit parameter that builds a value, a top-level variable, a function showing a value, a function with unit result, an identity function, plus functions with 2..4 parameters; together with a GENERATED GO CLIENT in the same package that uses them only through the documented names: struct literals R{F: v} / R[int]{...} and field reads, New_U_C(v), the New_U_C variable, New_U_C[T](v) / New_U_C[T]() for generic unions, a type switch over U_C reading .Value, frt.Tuple2/3 literals with E0..E2, calls f(a, b) in parameter order, no parameter for (), no result for unit, package variables. (ii) foreign calls: random package_info blocks for package _ (implemented in the client file) and for a named sibling Go package, with 1..4-ary signatures over int/string/bool/[]int/opaque types/type parameters and generated Go implementations that print their arguments in order and return a value computed from them; Folang call sites in every arity from 1 to full: direct, through a let-bound partial application, as a pipe stage, as a higher-order argument, with explicit type arguments. (iii) self-referential and `and`-group declarations: 1..3 groups of 1..3 records / unions whose fields and payloads mention the type being defined or another (earlier or later) member of the group below a drawn type constructor ([]X, dict.Dict<string, X>, []Bx<X>, Op<X>, int*[]X, Op<int>*Op<X>, Bx<Bx<X>>, X itself where Go allows it, ...); the Go client states the documented Go type of every such field / payload in a function signature (func chk(x Ty3) dict.Dict[string, Ty2] { return x.F3a }). Oracle: the whole package (gen_decl.go + client.go [+ sibling package]) compiles and its stdout equals what the documented representation and the foreign functions' own printing predict. Non-trivial = a generic declaration used from Go, or a foreign function of arity >= 3 applied partially; distinct = hash of the case.",
 		Technique: "property-based testing (rapid) with generated Go client code and generated Go implementations: differential between the documented representation and what fc emits, decided by compiling and running",
 		Assumptions: []string{
 			"the documented representation is the one in the property statement (docs/specs/union.md, note.md, tutorial 4)",
